@@ -11,7 +11,9 @@ RULE = ("cases = for PD codes of yui-link/resources/links (quick: all codes with
         "to 16); `jinv mirror` = q -> q^-1 under mirroring; `jinv same` = invariance under relabelling + crossing "
         "reordering, Reidemeister-I kinks, and braid-word moves before closure (conjugation, Markov stabilisation, "
         "sigma sigma^-1 insertion, far commutation, braid relation), evaluated on the implementation and on the model "
-        "(`jinvbig`: implementation only); `jones` = exact polynomial equality on partially resolved diagrams, random "
+        "(`jinvbig`: implementation only); `khhuge` = closures of braid words with 33..48 letters (shuffled 2-strand words "
+        "s^a s^-b, 3-strand words u u^-1 v) whose state words need more than 32 bits: sum (-1)^i q^j rank Kh^{i,j} of the "
+        "library on the long closure compared with jones_model of the short isotopic closure; `jones` = exact polynomial equality on partially resolved diagrams, random "
         "valid non-planar codes with all crossing types and a malformed stream (DIVERGE = non-terminating traversal, "
         "reported by both sides). A case is non-trivial when the diagram has at least one crossing and the "
         "implementation returned a polynomial; distinct = distinct case lines")
